@@ -91,7 +91,7 @@ than two reversals is a `ValueError`. -/
 theorem sigcount_is_composition (tol : Rat) (right : Bool) (p : Nat) (retbins usePandas : Bool)
     (ampS meanS : BinSpec Rat) (y : List Rat) :
     sigcountFull tol right p retbins usePandas ampS meanS y =
-      match Findap.findapDef tol y with
+      match Findap.findapDefFix tol y with
       | none => .valueError
       | some m =>
           match Rainflow.rainflowApi (Findap.select m y) with
@@ -99,7 +99,7 @@ theorem sigcount_is_composition (tol : Rat) (right : Bool) (p : Nat) (retbins us
           | some t => binifyFull right p retbins usePandas true ampS meanS
               (t.map fun c => (c.rng / 2, c.sum / 2, if c.full then 1 else 1 / 2)) := by
   unfold sigcountFull cycleRows
-  cases Findap.findapDef tol y with
+  cases Findap.findapDefFix tol y with
   | none => rfl
   | some m =>
       simp only []
